@@ -399,6 +399,11 @@ def needs_sep(a, b):
     if ka == 'delim':
         d = ta
         if d in '-+.':
+            # (a name that starts with ONE hyphen may follow directly: an identifier has at most one leading hyphen, so
+            # `--a` is the delimiter and the identifier `-a`)
+            if kb in ('ident', 'function') and f == '-' and len(tb) > 1 and (
+                    tb[1].isalpha() and tb[1].isascii() or tb[1] == '_' or tb[1] == '\\' or ord(tb[1]) >= 0x80):
+                return False
             return namelike or f in '.-' or kb in ('number', 'percentage', 'dimension', 'cdc')
         if d == '#':
             return namelike
